@@ -266,7 +266,7 @@ def discharge_all(obligations, axioms, timeout_ms=10000, seed=0, jobs=8, single_
     for ob in obligations:
         if z3.is_false(ob.goal) and results[ob.oid]["status"] != "proved":
             results[ob.oid]["failed_part"] = "false  (the path reaching this point is not refuted)"
-    def one_round(obs, rnd, ext):
+    def one_round(obs, rnd, ext, mult=None, seed_delta=0):
         """-> obligations still unproved that may profit from another round"""
         tasks, meta = [], {}
         active = []
@@ -289,9 +289,9 @@ def discharge_all(obligations, axioms, timeout_ms=10000, seed=0, jobs=8, single_
             for k, (hyps, g) in enumerate(parts):
                 key = f"{ob.oid}#{rnd}.{k}"
                 meta[key] = (ob, k, hyps, g)
-                tmo = timeout_ms * (2 if ext else 1)
+                tmo = timeout_ms * (mult if mult is not None else (2 if ext else 1))
                 tasks.append((key, (lambda ob=ob, hyps=hyps, g=g, tmo=tmo: _check_inproc(list(ob.pc) + hyps, g, axioms,
-                                                                                         tmo, seed, True)),
+                                                                                         tmo, seed + seed_delta, True)),
                               WALL_SLACK * tmo / 1000.0, len(active) - 1))
         r = run_forked(tasks, max(2, jobs // 2) if ext else jobs)
         per_ob = {}
@@ -320,7 +320,7 @@ def discharge_all(obligations, axioms, timeout_ms=10000, seed=0, jobs=8, single_
             }
             # next round works only on the parts that failed, and only if splitting them changes anything
             ob._parts = [(hyps, g) for _, _, _, hyps, g in failed]
-            if not ext and worst != "error":
+            if worst != "error" and (not ext or rnd == 3):
                 still.append(ob)
         return still
 
@@ -335,7 +335,13 @@ def discharge_all(obligations, axioms, timeout_ms=10000, seed=0, jobs=8, single_
         chunk = left[i:i + CHUNK]
         still = one_round(chunk, 2, False)
         if still:
-            one_round(still, 3, True)
+            still = one_round(still, 3, True)
+        if still:
+            # the search of the solver is sensitive to incidental names: parts that ran out of budget get one more
+            # try with another seed and twice the budget before the obligation counts as not discharged
+            retry = [ob for ob in still if results[ob.oid]["status"] == "unknown"]
+            if retry:
+                one_round(retry, 4, True, mult=4, seed_delta=7919)
         n_bad += len([ob for ob in chunk if results[ob.oid]["status"] != "proved"])
         if n_bad >= GIVE_UP:
             for ob in left[i + CHUNK:]:
